@@ -6,6 +6,7 @@ answer an error and leave GET /api/rules and the decisions unchanged."""
 import asyncio
 import json
 import random
+import time
 
 from .lib import Out, Proxy, TcpOrigin, base_cfg, echo_handler, free_port, http_connect, now, open_conn, run_main, workdir
 
@@ -100,11 +101,12 @@ async def main(args):
         async def reader(k):
             while not stop.is_set():
                 t1 = now()
+                wall = time.time()
                 try:
                     c = await open_conn("127.0.0.1", P["http"])
                     st, _ = await http_connect(c, "127.0.0.1", origin.port)
                     t2 = now()
-                    probes.append((c.local[1], t1, t2, st))
+                    probes.append((c.local[1], t1, t2, st, wall))
                     c.close()
                 except Exception:
                     pass
@@ -112,13 +114,17 @@ async def main(args):
         await asyncio.gather(writer(), *[reader(k) for k in range(8)])
         await asyncio.sleep(2.3)
         hist = await A.api_json("/history", timeout=30)
-        by_port = {int(h["source"].rsplit(":", 1)[1]): h for h in hist}
+        # a source port can be used again later in the run: the record of a probe is the one that started when the probe did
+        by_port = {}
+        for h in hist:
+            by_port.setdefault(int(h["source"].rsplit(":", 1)[1]), []).append(h)
         overlapped = 0
-        for (port, t1, t2, st) in probes:
+        for (port, t1, t2, st, wall) in probes:
             out.case()
-            h = by_port.get(port)
-            if h is None:
+            cands_h = [h for h in by_port.get(port, []) if h.get("state") and abs(h["state"][0]["time"] / 1000.0 - wall) < 2.0]
+            if len(cands_h) != 1:
                 continue
+            h = cands_h[0]
             got = h.get("connector")
             last_before = 0
             for i, (v, c, r) in enumerate(wlog):
